@@ -3,11 +3,22 @@
 // Mutators print Count() of the receiver afterwards; queries print their result; `mem R` prints the members below
 // 66*64 as hex words obtained through State (trailing zero words dropped); `obs R` prints Count, the State scan,
 // FirstSet, LastSet and then Data() (which trims the receiver); `data R` prints Data().
+//
+// Aliasing (both directions): every slice handed out by Data() or handed in to Load() is either scribbled on right away
+// (the bit set must not notice: later observations) or kept together with a pristine copy and re-checked after every
+// later line (the bit set must never write into it: the line gets the suffix ` ALIAS:<what>`, which the model never
+// prints).  Clone/Copy independence is observed by mutating either bit set and observing the other.
+//
+// Hangs: every line is executed by a worker goroutine under a deadline (HX_C08_DEADLINE_MS, default 1500).  A line that
+// does not return prints `hang`, the rest of its history prints `skipped-after-crash` (ignored by the comparison), the
+// worker and its bit sets are abandoned; after three hangs the rest of the stream is skipped.
 package main
 
 import (
+	"os"
 	"strconv"
 	"strings"
+	"time"
 
 	"github.com/richardwilkes/toolbox/xmath"
 	"verifharness/hx"
@@ -15,16 +26,27 @@ import (
 
 const scanWords = 66
 
-type area struct {
-	a, b *xmath.BitSet
+type held struct {
+	what     string
+	live     []uint64
+	pristine []uint64
 }
 
-func (ar *area) reg(r string) *xmath.BitSet {
+// session is the state of one history; it is owned by one worker goroutine.
+type session struct {
+	a, b *xmath.BitSet
+	held []held
+	n    int
+}
+
+func newSession() *session { return &session{a: &xmath.BitSet{}, b: &xmath.BitSet{}} }
+
+func (s *session) reg(r string) *xmath.BitSet {
 	switch r {
 	case "A":
-		return ar.a
+		return s.a
 	case "B":
-		return ar.b
+		return s.b
 	}
 	return nil
 }
@@ -74,27 +96,69 @@ func memStr(b *xmath.BitSet) string {
 	return wordsStr(ws[:n])
 }
 
-func (ar *area) Run(line string) string {
+func scribble(d []uint64) {
+	for i := range d {
+		d[i] = ^d[i]
+	}
+}
+
+// hand decides what happens to a slice that crossed the API: scribble on it now, or keep it and watch it.
+func (s *session) hand(what string, d []uint64) {
+	s.n++
+	if s.n%2 == 0 {
+		scribble(d)
+		return
+	}
+	p := make([]uint64, len(d))
+	copy(p, d)
+	s.held = append(s.held, held{what: what, live: d, pristine: p})
+}
+
+// aliasCheck reports (once) every watched slice that has been written to.
+func (s *session) aliasCheck() string {
+	out := ""
+	keep := s.held[:0]
+	for _, h := range s.held {
+		same := len(h.live) == len(h.pristine)
+		if same {
+			for i := range h.live {
+				if h.live[i] != h.pristine[i] {
+					same = false
+					break
+				}
+			}
+		}
+		if same {
+			keep = append(keep, h)
+		} else {
+			out += " ALIAS:" + h.what
+		}
+	}
+	s.held = keep
+	return out
+}
+
+// data calls Data() twice (it is idempotent): one result is printed and handed on, the other is scribbled on.
+func (s *session) data(b *xmath.BitSet) string {
+	d := b.Data()
+	out := wordsStr(d)
+	s.hand("Data-result", d)
+	scribble(b.Data())
+	return out
+}
+
+func (s *session) exec(line string) string {
 	f := strings.Fields(line)
 	if len(f) == 0 {
 		return "bad-op"
 	}
-	if f[0] == "reset" && len(f) == 1 {
-		ar.a = &xmath.BitSet{}
-		ar.b = &xmath.BitSet{}
-		return "reset"
-	}
-	if ar.a == nil {
-		ar.a = &xmath.BitSet{}
-		ar.b = &xmath.BitSet{}
-	}
 	if f[0] == "equal" && len(f) == 1 {
-		return strconv.FormatBool(ar.a.Equal(ar.b)) + " " + strconv.FormatBool(ar.b.Equal(ar.a))
+		return strconv.FormatBool(s.a.Equal(s.b)) + " " + strconv.FormatBool(s.b.Equal(s.a))
 	}
 	if len(f) < 2 {
 		return "bad-op"
 	}
-	b := ar.reg(f[1])
+	b := s.reg(f[1])
 	if b == nil {
 		return "bad-op"
 	}
@@ -119,25 +183,33 @@ func (ar *area) Run(line string) string {
 		b.FlipRange(hx.Atoi(f[2]), hx.Atoi(f[3]))
 		return cnt()
 	case f[0] == "load" && len(f) == 3:
-		b.Load(parseWords(f[2]))
+		ws := parseWords(f[2])
+		b.Load(ws)
+		s.hand("Load-argument", ws)
+		return cnt()
+	case f[0] == "loadnil" && len(f) == 2:
+		b.Load(nil)
 		return cnt()
 	case f[0] == "copy" && len(f) == 3:
-		o := ar.reg(f[2])
+		o := s.reg(f[2])
 		if o == nil {
 			return "bad-op"
 		}
 		b.Copy(o)
+		if o == b {
+			return cnt() + " " + memStr(b)
+		}
 		return cnt()
 	case f[0] == "clone" && len(f) == 3:
-		o := ar.reg(f[2])
+		o := s.reg(f[2])
 		if o == nil {
 			return "bad-op"
 		}
 		c := o.Clone()
 		if f[1] == "A" {
-			ar.a = c
+			s.a = c
 		} else {
-			ar.b = c
+			s.b = c
 		}
 		return strconv.Itoa(c.Count())
 	case f[0] == "trim" && len(f) == 2:
@@ -150,18 +222,15 @@ func (ar *area) Run(line string) string {
 		b.Reset()
 		return cnt()
 	case f[0] == "data" && len(f) == 2:
-		return wordsStr(b.Data())
+		return s.data(b)
 	case f[0] == "loaddata" && len(f) == 3:
-		o := ar.reg(f[2])
+		o := s.reg(f[2])
 		if o == nil {
 			return "bad-op"
 		}
 		d := o.Data()
 		b.Load(d)
-		// the returned slice must be a copy: scribbling on it afterwards must not reach either bit set
-		for i := range d {
-			d[i] = ^d[i]
-		}
+		s.hand("Data-result-given-to-Load", d)
 		return cnt()
 	case f[0] == "state" && len(f) == 3:
 		return strconv.FormatBool(b.State(hx.Atoi(f[2])))
@@ -181,247 +250,85 @@ func (ar *area) Run(line string) string {
 		return strconv.Itoa(b.PreviousClear(hx.Atoi(f[2])))
 	case f[0] == "equalnil" && len(f) == 2:
 		return strconv.FormatBool(b.Equal(nil))
+	case f[0] == "equalself" && len(f) == 2:
+		return strconv.FormatBool(b.Equal(b))
 	case f[0] == "mem" && len(f) == 2:
 		return memStr(b)
 	case f[0] == "obs" && len(f) == 2:
 		pre := "c=" + cnt() + " m=" + memStr(b) + " f=" + strconv.Itoa(b.FirstSet()) + " l=" + strconv.Itoa(b.LastSet())
-		d := b.Data()
-		s := pre + " d=" + wordsStr(d)
-		for i := range d {
-			d[i] = ^d[i]
-		}
-		return s
+		return pre + " d=" + s.data(b)
 	}
 	return "bad-op"
 }
 
-var boundary = []int{0, 1, 62, 63, 64, 65, 127, 128, 129, 191, 192}
-
-// index draws from the boundary set, a small dense window, or the whole range below 4096; `scale` narrows the range
-// for histories that should stay dense.
-func index(r *hx.Rng, scale int) int {
-	switch r.Intn(10) {
-	case 0, 1, 2:
-		return hx.Pick(r, boundary)
-	case 3, 4:
-		// around a word boundary
-		w := r.Intn(scale/64 + 1)
-		return max(0, w*64+r.Range(-2, 2))
-	case 5, 6:
-		return r.Intn(min(scale, 260))
-	default:
-		return r.Intn(scale)
-	}
+// worker executes lines for one session; it is abandoned when a line does not return.
+type worker struct {
+	in  chan string
+	out chan string
 }
 
-func genRange(r *hx.Rng, scale int) (int, int) {
-	var s, e int
-	switch r.Intn(8) {
-	case 0: // inside one word
-		w := r.Intn(scale / 64)
-		s = w*64 + r.Intn(64)
-		e = w*64 + r.Intn(64)
-	case 1, 2: // spanning three or more words, ends on boundary bits
-		w := r.Intn(max(1, scale/64-4))
-		s = w*64 + hx.Pick(r, []int{0, 1, 31, 62, 63})
-		e = (w+2+r.Intn(3))*64 + hx.Pick(r, []int{0, 1, 31, 62, 63})
-	case 3: // whole words exactly
-		w := r.Intn(max(1, scale/64-3))
-		s = w * 64
-		e = (w+1+r.Intn(3))*64 - 1
-	case 4: // two words
-		w := r.Intn(max(1, scale/64-1))
-		s = w*64 + r.Intn(64)
-		e = (w+1)*64 + r.Intn(64)
-	case 5: // single index
-		s = index(r, scale)
-		e = s
-	default:
-		s = index(r, scale)
-		e = index(r, scale)
-		if s > e {
-			s, e = e, s
-		}
-	}
-	if r.Chance(1, 4) { // reversed
-		s, e = e, s
-	}
-	return s, e
-}
-
-func genWords(r *hx.Rng) string {
-	n := r.Intn(7)
-	ws := make([]uint64, 0, n+4)
-	for i := 0; i < n; i++ {
-		switch r.Intn(6) {
-		case 0:
-			ws = append(ws, 0)
-		case 1:
-			ws = append(ws, ^uint64(0))
-		case 2:
-			ws = append(ws, uint64(1)<<uint(r.Intn(64)))
-		case 3:
-			ws = append(ws, ^(uint64(1) << uint(r.Intn(64))))
-		default:
-			ws = append(ws, r.U64())
-		}
-	}
-	// trailing zero words: none, an odd or an even number
-	for i, z := 0, hx.Pick(r, []int{0, 0, 1, 2, 3, 4}); i < z; i++ {
-		ws = append(ws, 0)
-	}
-	return wordsStr(ws)
-}
-
-func (ar *area) Gen(r *hx.Rng, n int, _ string, emit func(string)) {
-	it := strconv.Itoa
-	for done := 0; done < n; {
-		emit("reset")
-		done++
-		scale := hx.Pick(r, []int{256, 256, 520, 1100, 4096})
-		steps := r.Range(8, 40)
-		for k := 0; k < steps; k++ {
-			R := hx.Pick(r, []string{"A", "A", "B"})
-			O := "B"
-			if R == "B" {
-				O = "A"
+func newWorker() *worker {
+	w := &worker{in: make(chan string), out: make(chan string, 1)}
+	go func() {
+		s := newSession()
+		for line := range w.in {
+			if line == "reset" {
+				s = newSession()
+				w.out <- "reset"
+				continue
 			}
-			var l string
-			switch r.Intn(44) {
-			case 0, 1, 2, 3:
-				l = "set " + R + " " + it(index(r, scale))
-			case 4, 5:
-				l = "clr " + R + " " + it(index(r, scale))
-			case 6, 7:
-				l = "flip " + R + " " + it(index(r, scale))
-			case 8, 9, 10:
-				s, e := genRange(r, scale)
-				l = "setr " + R + " " + it(s) + " " + it(e)
-			case 11, 12, 13:
-				s, e := genRange(r, scale)
-				if r.Chance(1, 3) { // reach beyond the capacity
-					e += 64 * r.Range(1, 70)
-				}
-				l = "clrr " + R + " " + it(s) + " " + it(e)
-			case 14, 15, 16:
-				s, e := genRange(r, scale)
-				l = "flipr " + R + " " + it(s) + " " + it(e)
-			case 17:
-				l = "load " + R + " " + genWords(r)
-			case 18, 19:
-				l = "copy " + R + " " + O
-			case 20:
-				l = "clone " + R + " " + O
-			case 21, 22:
-				l = "trim " + R
-			case 23, 24:
-				l = "ensure " + R + " " + it(hx.Pick(r, []int{0, 1, 2, 3, 4, 5, 7, 8, 9, 16, 17, r.Intn(70)}))
-			case 25:
-				if r.Chance(1, 3) {
-					l = "rst " + R
-				} else {
-					l = "loaddata " + R + " " + O
-				}
-			case 26:
-				l = "data " + R
-			case 27:
-				l = "state " + R + " " + it(index(r, scale+130))
-			case 28:
-				l = "count " + R
-			case 29:
-				l = hx.Pick(r, []string{"first ", "last "}) + R
-			case 30, 31:
-				l = "next " + R + " " + it(index(r, scale+130))
-			case 32, 33:
-				l = "prev " + R + " " + it(index(r, scale+130))
-			case 34, 35:
-				l = "nextclr " + R + " " + it(index(r, scale+130))
-			case 36, 37:
-				l = "prevclr " + R + " " + it(index(r, scale+130))
-			case 38, 39:
-				l = "equal"
-			case 40:
-				if r.Chance(1, 8) {
-					l = "equalnil " + R
-				} else {
-					l = "mem " + R
-				}
-			case 41:
-				l = "loaddata " + R + " " + R
-			default:
-				l = "obs " + R
-			}
-			emit(l)
-			done++
-			// after a copy, perturb the capacity of one side and compare: Equal must not see capacities
-			if strings.HasPrefix(l, "copy") || strings.HasPrefix(l, "clone") {
-				switch r.Intn(4) {
-				case 0:
-					emit("ensure " + R + " " + it(r.Range(1, 40)))
-					done++
-				case 1:
-					emit("trim " + O)
-					done++
-				case 2:
-					emit("flip " + R + " " + it(index(r, scale)))
-					done++
-				}
-				emit("equal")
-				done++
-			}
+			l := line
+			w.out <- hx.Safe(func() string {
+				r := s.exec(l)
+				return r + s.aliasCheck()
+			})
 		}
-		// final full observation of both
-		emit("obs A")
-		emit("obs B")
-		emit("equal")
-		done += 3
-	}
+	}()
+	return w
 }
 
-// popcnt: the repository's SWAR countSetBits (exported by the overlay file go/overlay/c08_export.go) on single words.
-type popcnt struct{}
+type area struct {
+	w        *worker
+	timer    *time.Timer
+	deadline time.Duration
+	hangs    int
+	dead     bool // the rest of the current history is skipped
+}
 
-func (popcnt) Gen(r *hx.Rng, n int, _ string, emit func(string)) {
-	for i := 0; i < n; i++ {
-		var w uint64
-		switch r.Intn(10) {
-		case 0:
-			w = uint64(1) << uint(r.Intn(64))
-		case 1:
-			w = ^(uint64(1) << uint(r.Intn(64)))
-		case 2: // one byte pattern in one lane
-			w = uint64(r.Intn(256)) << uint(8*r.Intn(8))
-		case 3: // sparse
-			w = r.U64() & r.U64() & r.U64()
-		case 4: // dense
-			w = r.U64() | r.U64() | r.U64()
-		case 5: // a run of ones
-			a, b := r.Intn(64), r.Intn(64)
-			if a > b {
-				a, b = b, a
-			}
-			w = (^uint64(0) >> uint(63-(b-a))) << uint(a)
-		case 6:
-			w = hx.Pick(r, []uint64{0, ^uint64(0), 0x5555555555555555, 0xaaaaaaaaaaaaaaaa, 0x3333333333333333,
-				0xcccccccccccccccc, 0x0f0f0f0f0f0f0f0f, 0xf0f0f0f0f0f0f0f0, 0x0101010101010101, 0x8080808080808080,
-				0xff00000000000000, 0x00000000000000ff, 0x8000000000000000, 0x7fffffffffffffff})
-		default:
-			w = r.U64()
+func (ar *area) Run(line string) string {
+	if ar.w == nil {
+		ar.w = newWorker()
+		ms := 1500
+		if v, err := strconv.Atoi(os.Getenv("HX_C08_DEADLINE_MS")); err == nil && v > 0 {
+			ms = v
 		}
-		emit("pc " + strconv.FormatUint(w, 16))
+		ar.deadline = time.Duration(ms) * time.Millisecond
+		ar.timer = time.NewTimer(time.Hour)
+		ar.timer.Stop()
+	}
+	line = strings.TrimSpace(line)
+	if line == "reset" {
+		ar.dead = false
+	}
+	if ar.hangs >= 3 || ar.dead {
+		return "skipped-after-crash"
+	}
+	ar.w.in <- line
+	ar.timer.Reset(ar.deadline)
+	select {
+	case r := <-ar.w.out:
+		ar.timer.Stop()
+		return r
+	case <-ar.timer.C:
+		ar.hangs++
+		ar.dead = true
+		ar.w = newWorker() // the old worker keeps spinning on bit sets nobody looks at any more
+		return "hang"
 	}
 }
 
-func (popcnt) Run(line string) string {
-	f := strings.Fields(line)
-	if len(f) != 2 || f[0] != "pc" {
-		return "bad-op"
-	}
-	v, err := strconv.ParseUint(f[1], 16, 64)
-	if err != nil {
-		return "bad-op"
-	}
-	return strconv.Itoa(xmath.VerifCountSetBits(v))
+func main() {
+	areas := map[string]hx.Area{"bitset": &area{}}
+	registerPopcnt(areas)
+	hx.Main(areas)
 }
-
-func main() { hx.Main(map[string]hx.Area{"bitset": &area{}, "popcnt": popcnt{}}) }
